@@ -45,6 +45,16 @@ def main(argv):
                                     "what Printer::printModel(model, true) avoids when it generates ids")):
         c.harnesses.append(("listids", Harness("h_" + nm, "U", enforce=nm, replace=[x for x in lstubs if x != nm] + ["listComponentIds__rec"], defines={"HEAP_N": 12, "PW_NO_H": 1},
                                                backend="kissat|z3", timeout=900, loop_contracts=True, object_bits=12, carries=carries)))
+    # annotator side: the build of the annotator's own id index under a data contract (keys-only multimap, unbounded)
+    c.units.append(UnitSpec("annidx", ["annotator.cpp"], [("annotator.cpp", "libcellml::Annotator::AnnotatorImpl::listIdsAndItems")], string_model="sid",
+                            models=("pointwise.h",), spec_header="specs/C13/annidx.h", harness_file="specs/C13/annidx_harness.c"))
+    astubs = sorted(set(m.group(1) for m in re.finditer(r"^#define __FC_(\w+)", open(os.path.join(VERIF, "specs/C13/annidx.h")).read(), re.M)))
+    anm = "Annotator_AnnotatorImpl_listIdsAndItems"
+    c.harnesses.append(("annidx", Harness("h_listIdsAndItems", "U", enforce=anm, replace=[x for x in astubs if x != anm], defines={"HEAP_N": 12, "PW_NO_H": 1},
+                                          backend="kissat|z3", timeout=900, loop_contracts=True, object_bits=12,
+                                          carries="AnnotatorImpl::listIdsAndItems (the index makeUniqueId consults): EVERY identifier of the model, of each units (its own id, its import "
+                                                  "source's id, the ids of its unit children - imported or not) and (by the assumed contract of listComponentIdsAndItems) of each "
+                                                  "component tree is a key of the index; keys-only lowering of the multimap")))
     wd = engine.work_dir("C13")
     exe = {}
 
@@ -120,6 +130,8 @@ def main(argv):
 
     c.pre_steps = [build]
     c.trusted_base = [
+        "annidx unit: AnnotatorImpl::listComponentIdsAndItems is an ASSUMED contract (collects the subtree's ids, removes nothing); the multimap is lowered keys only, "
+        "the construction of the mapped AnyCellmlElement values (create/set*/UnitsItem::create) are frame-nothing stubs",
         "listids unit: the object tree is read through contract stubs of the getters at arbitrary ghost indices; the id set tracks one arbitrary identifier Z exactly (models/pointwise.h)",
         "effect slices (tools/slicer.py): every condition is a nondeterministic choice, all data is dropped; only the order of effects on each path is kept",
         "update() is a trusted contract: generateHash() is sensitive to every identifier of the model (NOT checked - the hash in fact ignores connection/mapping ids)",
